@@ -155,6 +155,8 @@ class Prov:
         self._cache = {}
         self._stack = set()
         self._loops = None
+        self._raw_in = False
+        self._ind = {}
 
     def _index(self):
         fn = self.fn
@@ -191,6 +193,139 @@ class Prov:
             out.sort(key=lambda x: len(x[1]))
             self._loops = out
         return self._loops
+
+    # ---------------------------------------------------------- counted loops
+    def induction(self, l, block):
+        """(lo, hi_exclusive, header) when local l is the counter of the innermost loop around `block` that defines it:
+        initialised before the loop, incremented by exactly one once per iteration (the increment dominates every latch),
+        and tested at the top of the loop against a loop-invariant bound (`l < hi` / `l <= hi-1`) whose failing edge leaves
+        the loop.  Inside such a loop (past the test) l@in ranges over lo..hi exactly like `for l in lo..hi`."""
+        if not self.cut_loops:
+            return None
+        cand = [(h, comp) for (h, comp, defd) in self.loops() if block in comp and l in defd]
+        if not cand:
+            return None
+        h, comp = cand[0]
+        key = (l, h)
+        if key not in self._ind:
+            self._ind[key] = None
+            saved = self._raw_in
+            self._raw_in = True
+            try:
+                self._ind[key] = self._induction(l, h, comp)
+            except RecursionError:
+                self._ind[key] = None
+            finally:
+                self._raw_in = saved
+        return self._ind[key]
+
+    def _induction(self, l, h, comp):
+        fn = self.fn
+        ins = [(b, i, k) for (b, i, k) in self.defs.get(l, []) if b in comp]
+        if len(ins) != 1 or ins[0][2] != 'full':
+            return None
+        db, di, _ = ins[0]
+        dom = fn.dominators()
+        latches = [p for p in fn.pred(h) if p in comp]
+        if not latches or any(db not in dom.get(p, ()) for p in latches):
+            return None
+        # the increment does not sit in an inner loop
+        for (h2, comp2, _) in self.loops():
+            if h2 != h and comp2 < comp and db in comp2:
+                return None
+        e = strip(norm(self._def_expr(l, db, di, 0)))
+        if e.k == 'field' and e.name == '0' and e.args:
+            e = strip(e.args[0])
+        if not (e.k == 'binop' and e.name in ('AddWithOverflow', 'Add', 'AddUnchecked') and len(e.args) == 2):
+            return None
+        a, b_ = strip(e.args[0]), strip(e.args[1])
+        def is_in(x):
+            return x.k == 'local' and (x.c or {}).get('loopvar') and (x.c or {}).get('l') == l
+        if not ((is_in(a) and const_int(b_) == 1) or (is_in(b_) and const_int(a) == 1)):
+            return None
+        # initial value: the one definition reaching the header from outside
+        outs = [p for p in fn.pred(h) if p not in comp]
+        if not outs:
+            return None
+        saved_cut = self.cut_loops
+        inits = []
+        for p in outs:
+            inits.append(norm(self.local(l, p, len(fn.blocks[p]['stmts']))))
+        if any(strip(x).k == 'phi' or not _invariant(x) for x in inits) or len({x.show() for x in inits}) != 1:
+            return None
+        lo = inits[0]
+        # the test at the top of the loop: header, then straight-line blocks, then a two-way switch with one edge leaving
+        b = h
+        for _ in range(8):
+            t = fn.blocks[b]['term']
+            if t['k'] == 'switch':
+                break
+            nxt = [x for x in fn.succ(b) if not fn.blocks[x].get('cleanup')]
+            if len(nxt) != 1 or nxt[0] not in comp or (b == db):
+                return None
+            b = nxt[0]
+        else:
+            return None
+        t = fn.blocks[b]['term']
+        if t['ty'] != 'bool':
+            return None
+        stay = [x for x in fn.succ(b) if x in comp]
+        leave = [x for x in fn.succ(b) if x not in comp]
+        if len(stay) != 1 or len(leave) != 1:
+            return None
+        c = strip(norm(self.operand(t['op'], b, len(fn.blocks[b]['stmts']))))
+        neg = False
+        while c.k == 'unop' and c.name == 'Not':
+            c = strip(c.args[0]); neg = not neg
+        if not (c.k == 'binop' and c.name in ('Lt', 'Le', 'Gt', 'Ge') and len(c.args) == 2):
+            return None
+        x, y = strip(c.args[0]), strip(c.args[1])
+        op = c.name
+        if is_in(y):
+            x, y = y, x
+            op = {'Lt': 'Gt', 'Gt': 'Lt', 'Le': 'Ge', 'Ge': 'Le'}[op]
+        if not is_in(x) or not _invariant(y):
+            return None
+        # edge taken when the comparison is true
+        true_t = t['otherwise']
+        for v, tb in t['targets']:
+            if v == '1':
+                true_t = tb
+        false_t = [tb for v, tb in t['targets'] if v == '0']
+        false_t = false_t[0] if false_t else t['otherwise']
+        holds_in_loop = (true_t == stay[0]) != neg if true_t != false_t else None
+        if holds_in_loop is None:
+            return None
+        if not holds_in_loop:
+            op = {'Lt': 'Ge', 'Ge': 'Lt', 'Le': 'Gt', 'Gt': 'Le'}[op]
+        if op == 'Lt':
+            hi = y
+        elif op == 'Le':
+            v = const_int(y)
+            if v is None:
+                return None
+            cc = dict(strip(y).c)
+            cc['bits'] = str(v + 1)
+            cc.pop('signed', None)
+            hi = E('const', c=cc, ty=strip(y).ty)
+        else:
+            return None
+        return lo, hi, h
+
+    def induction_loops(self):
+        """[(header, blocks, local, lo, hi)] of the counted while-loops of the function"""
+        out = []
+        for (h, comp, defd) in self.loops():
+            for l in sorted(defd):
+                if (self.fn.locals[l].get('name') or '') == '':
+                    continue
+                inner = [c2 for (h2, c2, d2) in self.loops() if c2 < comp and l in d2]
+                if inner:
+                    continue
+                ind = self.induction(l, h)
+                if ind is not None and ind[2] == h:
+                    out.append((h, comp, l, ind[0], ind[1]))
+        return out
 
     # ---------------------------------------------------------- reaching definitions
     def reaching(self, local, block, idx):
@@ -329,6 +464,14 @@ class Prov:
         alts = []
         for r in rs:
             if r == 'IN':
+                ind = self.induction(l, block) if not self._raw_in else None
+                if ind is not None:
+                    # `j = a; while j < b { ..; j += 1 }` is `for j in a..b`: the counter at the start of an iteration is
+                    # an element of the range, written exactly as the for-loop's `next()` payload
+                    rng = E('aggr', 'Range::Range', [ind[0], ind[1]], ty='std::ops::Range<%s>' % (fn.local_ty(l) or 'usize'))
+                    nxt = E('call', 'std::iter::Iterator::next', [E('call', 'std::iter::IntoIterator::into_iter', [rng])], c={'induction': l, 'header': ind[2]})
+                    alts.append(E('field', '0', [E('field', 'as Some', [nxt])], ty=fn.local_ty(l), c={'fidx': 0, 'induction': l}))
+                    continue
                 alts.append(E('local', fn.local_name(l) + '@in', ty=fn.local_ty(l), c={'l': l, 'loopvar': True}))
                 continue
             if r is None:
@@ -701,3 +844,20 @@ def const_key(e):
     if c.get('k') == 'int':
         return ('int', c['bits'], c.get('ty'))
     return ('other', c.get('bytes'), c.get('ty'), c.get('fn'))
+
+
+def _invariant(e, depth=0):
+    """the expression involves nothing that can change inside a loop: constants, parameters (not through calls other
+    than len), arithmetic"""
+    e = strip(e)
+    if depth > 20:
+        return False
+    if e.k == 'const':
+        return True
+    if e.k == 'param':
+        return '&mut' not in (e.ty or '')
+    if e.k in ('binop', 'unop', 'cast', 'field', 'deref', 'ref'):
+        return all(_invariant(a, depth + 1) for a in e.args)
+    if e.k == 'call' and last(e.name) == 'len' and len(e.args) == 1:
+        return _invariant(e.args[0], depth + 1)
+    return False
